@@ -22,6 +22,7 @@
 #include <errno.h>
 #include <stdbool.h>
 #include <stdio.h>
+#include <limits.h>
 #include <stdlib.h>
 #include <string.h>
 
@@ -391,6 +392,11 @@ int vnadata_resize(vnadata_t *vdp, vnadata_parameter_type_t type,
 	return -1;
     }
     if (validate_type(__func__, vdip, type, rows, columns) == -1) {
+	return -1;
+    }
+    if (rows > 0 && columns > INT_MAX / rows) {
+	_vnadata_error(vdip, VNAERR_USAGE,
+	    "vnadata_resize: dimensions too large: %d x %d", rows, columns);
 	return -1;
     }
     old_ports = MAX(vdp->vd_rows, vdp->vd_columns);
